@@ -29,3 +29,5 @@ Lemma pin_ATTR_PATTERN : GenTables.ATTR_PATTERN = Pins.ATTR_PATTERN.
 Proof. reflexivity. Qed.
 Lemma pin_attrs_re_calls : GenTables.attrs_re_calls = Pins.attrs_re_calls.
 Proof. reflexivity. Qed.
+Lemma pin_testcase_methods : GenTables.testcase_methods = Pins.testcase_methods.
+Proof. reflexivity. Qed.
